@@ -678,7 +678,8 @@ def helper_def(draw, idx, W):
     env.loc_vecs = list(params)
 
     def ret():
-        return vec_expr(env, 1).map(lambda e: {"k": "return", "e": e})
+        # a helper never returns a bare parameter (that would alias the caller's object instead of computing a value)
+        return vec_expr(env, 1).map(lambda e: {"k": "return", "e": e if e[0] not in ("loc", "in", "sig", "var") else ["inv", e]})
 
     def branch(depth):
         if depth == 0:
